@@ -1,6 +1,6 @@
 (* C01 property theorems.  Only statements closed by [exact]; each followed by Print Assumptions.
    All are about the definitions of C01/Model.v that C01/Harness.v evaluates against the implementation. *)
-From Miller Require Import Base.Bytes Base.Record C01.Model C01.ProofsUtil C01.ProofsTsv C01.ProofsDkvp C01.ProofsCsv C01.ProofsCsv2 C01.ModelJson C01.ProofsJson C01.ModelXtab C01.ProofsXtab C01.ModelLite C01.ProofsLite.
+From Miller Require Import Base.Bytes Base.Record C01.Model C01.ProofsUtil C01.ProofsTsv C01.ProofsDkvp C01.ProofsCsv C01.ProofsCsv2 C01.ModelJson C01.ProofsJson C01.ModelXtab C01.ProofsXtab C01.ModelLite C01.ProofsLite C01.ModelPprint C01.ProofsPprint C01.ProofsBarred C01.ModelMd C01.ProofsMd.
 Open Scope char_scope.
 
 (* ---- TSV ---- *)
@@ -200,4 +200,63 @@ Example C01_nonvacuous :
   /\ forallb (fun r => nodupb (keys r)) [[(B "a""b", bs [1;31;10;92;255]%N); (B "", B "")]; []] = true
   /\ forallb (wf_nidx_ws_rec false) [[(B "1", B "a,b"); (B "2", B "="); (B "3", bs [195;169]%N)]; []] = true
 .
+Proof. vm_compute. repeat split; reflexivity. Qed.
+
+(* ---- PPRINT ---- *)
+(* non-barred output, left-aligned or --right, LF or CRLF, read back with --ipprint (any dedupe / ragged setting), for EVERY
+   display-width function w (lib.DisplayWidth is a parameter of the writer model), heterogeneity blocks included
+   (records are batched on their ","-joined keys; a new batch is preceded by a blank line, which resets the reader's header).
+   Domain (wf_pprint, boolean): records non-empty with unique keys; keys non-empty, free of space, LF and ",";
+   values free of space and LF and different from "-" (the EMPTY value is in the domain: it is written "-" and read back
+   empty); the last key / last value of a record do not end in CR unless --ors crlf; first key not starting with byte 0xEF *)
+Theorem C01_pprint_roundtrip :
+  forall w right crlf dedupe ragged recs, wf_pprint crlf recs = true ->
+  read_pprint dedupe ragged (write_pprint_g w right false false crlf recs) = Some recs.
+Proof. exact pprint_roundtrip. Qed.
+Print Assumptions C01_pprint_roundtrip.
+
+(* the two exclusions are real representational limits of the format (documented: "-" stands for an empty value) *)
+Theorem C01_pprint_dash_value_refuted :
+  exists recs, forallb (fun r => negb (is_nil r) && nodupb (keys r)) recs = true
+    /\ read_pprint true false (write_pprint_g (@List.length ascii) false false false false recs) <> Some recs.
+Proof. exact pprint_dash_value_refuted. Qed.
+Print Assumptions C01_pprint_dash_value_refuted.
+
+Theorem C01_pprint_comma_keys_refuted :
+  exists recs, forallb (fun r => negb (is_nil r) && nodupb (keys r)) recs = true
+    /\ read_pprint true false (write_pprint_g (@List.length ascii) false false false false recs) <> Some recs.
+Proof. exact pprint_comma_keys_refuted. Qed.
+Print Assumptions C01_pprint_comma_keys_refuted.
+
+(* --barred output (ASCII bars), left-aligned or --right, read back with --ipprint --barred-input, for EVERY width function.
+   Domain (wf_barred): records non-empty with unique keys; cells free of "|" and LF and unchanged by strings.TrimSpace
+   (no leading/trailing Unicode white space); keys free of ",".  The empty value, "-", spaces inside a cell, CR and an
+   empty key are all representable here *)
+Theorem C01_pprint_barred_roundtrip :
+  forall w right crlf dedupe ragged recs, wf_barred recs = true ->
+  read_pprint_barred false dedupe ragged (write_pprint_g w right true false crlf recs) = Some recs.
+Proof. exact pprint_barred_roundtrip. Qed.
+Print Assumptions C01_pprint_barred_roundtrip.
+
+(* ---- Markdown ---- (model tied by correspondence; the general round trip is not proved yet -- these are today's defects) *)
+(* FULL statement (not proved): forall w aligned crlf dedupe ragged recs, wf_markdown recs = true ->
+     read_markdown false dedupe ragged (write_markdown w aligned crlf recs) = Some recs *)
+Theorem C01_markdown_escaped_bar_refuted :
+  exists recs, forallb (fun r => negb (is_nil r) && nodupb (keys r)) recs = true
+    /\ read_markdown false true false (write_markdown (@List.length ascii) false false recs) <> Some recs.
+Proof. exact markdown_escaped_bar_refuted. Qed.
+Print Assumptions C01_markdown_escaped_bar_refuted.
+
+Theorem C01_markdown_dash_row_refuted :
+  exists recs, forallb (fun r => negb (is_nil r) && nodupb (keys r)) recs = true
+    /\ read_markdown false true false (write_markdown (@List.length ascii) false false recs) <> Some recs.
+Proof. exact markdown_dash_row_refuted. Qed.
+Print Assumptions C01_markdown_dash_row_refuted.
+
+Example C01_nonvacuous_pprint :
+  wf_pprint false [[(B "a", B "1,2"); (B "b-c", B ""); (B "k", bs [195;169;13;65]%N)]; [(B "a", B "--"); (B "b-c", B "x"); (B "k", B "-x")];
+                   [(B "z", B "y")]; [(B "a", B "3"); (B "b-c", B "4"); (B "k", B "")]] = true
+  /\ wf_pprint true [[(B "a", bs [65;13]%N)]] = true
+  /\ wf_barred [[(B "", B "x  y"); (B "a b", B ""); (B "k", B "-"); (B "c", bs [195;169;13;65]%N)]; [(B "", B "1"); (B "a b", B "2"); (B "k", B "3"); (B "c", B "")];
+                [(B "z", bs [194]%N)]] = true.
 Proof. vm_compute. repeat split; reflexivity. Qed.
